@@ -53,7 +53,7 @@ enum Transposition {
 
 /// An edge between nodes is a tuple struct `Edge(u, v, e)` where `u` is the
 /// source node, `v` is the target node, and `e` is the edge's value.
-#[derive(Clone, PartialEq)]
+#[derive(Clone)]
 pub struct Edge<K = usize, N = (), E = ()>(pub Node<K, N, E>, pub Node<K, N, E>, pub E)
 where
     K: Clone + Hash + PartialEq + Eq + Display,
@@ -113,6 +113,47 @@ where
 /// assert!(v == b);
 /// assert!(e == 0.42);
 /// ```
+impl<K, N, E> PartialEq for Edge<K, N, E>
+where
+    K: Clone + Hash + PartialEq + Eq + Display,
+    N: Clone,
+    E: Clone,
+{
+    fn eq(&self, other: &Self) -> bool {
+        self.0 == other.0 && self.1 == other.1
+    }
+}
+
+impl<K, N, E> Eq for Edge<K, N, E>
+where
+    K: Clone + Hash + PartialEq + Eq + Display,
+    N: Clone,
+    E: Clone,
+{
+}
+
+impl<K, N, E> PartialOrd for Edge<K, N, E>
+where
+    K: Clone + Hash + PartialEq + Eq + Display,
+    N: Clone,
+    E: Clone + PartialOrd,
+{
+    fn partial_cmp(&self, other: &Self) -> Option<std::cmp::Ordering> {
+        self.2.partial_cmp(&other.2)
+    }
+}
+
+impl<K, N, E> Ord for Edge<K, N, E>
+where
+    K: Clone + Hash + PartialEq + Eq + Display,
+    N: Clone,
+    E: Clone + PartialOrd + Ord,
+{
+    fn cmp(&self, other: &Self) -> std::cmp::Ordering {
+        self.2.cmp(&other.2)
+    }
+}
+
 #[derive(Clone)]
 pub struct Node<K = usize, N = (), E = ()>
 where
